@@ -140,7 +140,22 @@ def run_job(unit, job, cpath, outdir, tier, extra_defines=()):
     b_gb = os.path.join(outdir, jname + '.b.gb')
     timeout = job.get('timeout', 120 if tier == 'quick' else 900)
     defines = list(unit.get('defines', [])) + list(job.get('defines', [])) + list(extra_defines)
-    cc = ['goto-cc', '-I' + INCLUDE, '-I' + unit['dir']] + ['-D' + d for d in defines] + ['--function', entry, cpath, '-o', a_gb]
+    # witness clauses (replay support): WITNESS(fn, cond) in spec.h is a requires clause of
+    # fn only in the job that enforces fn; elsewhere it expands to nothing.
+    wit_h = os.path.join(outdir, jname + '.wit.h')
+    names = set()
+    for fn_ in (unit.get('spec', 'spec.h'), unit.get('harness', 'harness.h')):
+        try:
+            names |= set(re.findall(r'\b\w*WITNESS\(\s*(\w+)', open(os.path.join(unit['dir'], fn_)).read()))
+        except OSError:
+            pass
+    with open(wit_h, 'w') as fo:
+        for n_ in sorted(names):
+            if n_ == job.get('enforce'):
+                fo.write('#define WIT_%s(...) __CPROVER_requires(__VA_ARGS__)\n' % n_)
+            else:
+                fo.write('#define WIT_%s(...)\n' % n_)
+    cc = ['goto-cc', '-I' + INCLUDE, '-I' + unit['dir'], '-include', wit_h] + ['-D' + d for d in defines] + ['--function', entry, cpath, '-o', a_gb]
     rc, out, err, _ = run(cc, 300)
     res.cmds.append(' '.join(cc))
     if rc != 0:
